@@ -1,6 +1,6 @@
 (* Property C07 — the same grid reads equal from every supported container format. *)
 From Coq Require Import QArith ZArith Bool Arith List.
-From FC Require Import Model.Scalar Model.Mesh Model.Structured Proofs.StructuredP Proofs.StructuredMeshP.
+From FC Require Import Model.Scalar Model.Mesh Model.Structured Proofs.StructuredP Proofs.StructuredMeshP Proofs.BridgeP.
 Import ListNotations.
 Local Open Scope nat_scope.
 
@@ -106,6 +106,25 @@ Theorem C07_structured_as_explicit : forall k1 k2 P extents rel abs,
   mesh_equal rel abs (grid_mesh k1 P extents) (grid_mesh k2 P extents) = true.
 Proof. exact structured_as_explicit. Qed.
 Print Assumptions C07_structured_as_explicit.
+
+(* the bridge in the other direction (to_meshio, repaired: finding F-C07c) and the round trip through it: every cell of every
+   block of the mesh — whatever the mix of cell types, quads next to pixels and hexahedra next to voxels included — is among
+   the cells handed out after to_meshio followed by from_meshio, under the meshio type of its block *)
+Theorem C07_bridge_round_trip_keeps_cells : forall (V : Type) blocks (data : list (list V)) t rows r,
+  length data = length blocks -> In (t, rows) blocks -> In r rows ->
+  exists res cells dat, from_meshio_fixed (to_meshio_fixed blocks) data = Some res /\
+    In (meshio_type t, (cells, dat)) res /\ In (meshio_row t r) cells.
+Proof. exact bridge_round_trip_keeps_cells. Qed.
+Print Assumptions C07_bridge_round_trip_keeps_cells.
+
+(* finding F-C07c: the pinned to_meshio (blocks in a dict keyed by the meshio type) keeps only the pixel cells of a mesh that
+   has a quad block and a pixel block *)
+Theorem C07_to_meshio_pinned_refuted :
+  let blocks := [(9, [[0; 1; 2; 3]]); (8, [[1; 4; 2; 5]])] in
+  to_meshio_pinned blocks = [(9, [[1; 4; 5; 2]])] /\
+  to_meshio_fixed blocks = [(9, [[0; 1; 2; 3]]); (9, [[1; 4; 5; 2]])].
+Proof. exact to_meshio_pinned_refuted. Qed.
+Print Assumptions C07_to_meshio_pinned_refuted.
 
 Example C07_nonvacuous :
   connectivity Image 8 [2; 0; 1] = [[0; 1; 3; 4]; [1; 2; 4; 5]] /\
